@@ -3,6 +3,10 @@
 A_TOOLS = 'tools trusted: Verus 0.2026.09.13 + Z3, rustc 1.98.1 front end, Kani 0.68 + CBMC 6.11, the extractor (provenance hashes + rewrite log in this file)'
 A_ARITH = 'machine arithmetic is NOT treated as mathematical: every u64/usize operation is an overflow obligation; usize == u64 (64-bit target)'
 
+A_HANDLES = 'the map of open child-bucket handles (prelude/bucketcommit.rs): its iterators list every open child once, the handles form a finite tree (depth measure: recursion of is_dirty / rebalance / spill terminates), an open child has its entry in the parent tree (children_have_entries); Node::spill and merge_nodes are ASSUMED to touch the allocator only through TxFreelist::{allocate, free} (tree_frame) and not the bucket header / flags / journal'
+A_SERIAL = 'Page::{branch_elements_mut, leaf_elements_mut, slice} hand out `count` element headers / `size` bytes behind the 32-byte header prefix and leave the other header fields alone (raw-pointer casts, decl only; read-side twins pinned by Kani k1_element_slices / k1_payload_addressing); io::Write for &mut [u8] copies to the front, advances and fails only when the data does not fit (std documentation; rule R24); slice_at_mut is IndexMut'
+A_HASHSET = 'std HashSet<u64> / HashMap<u64,u64> per vstd (group_hash_axioms: u64 obeys the key model, RandomState builds valid hashers); `(a..b).collect()` into a HashSet is exactly the ids a..b (stub U24)'
+
 PROPS = {}
 
 PROPS['C10'] = dict(
@@ -53,7 +57,7 @@ PROPS['C15'] = dict(
                 '(60 big-endian bytes in fixed order; FNV-1a resp. SHA3-256); M3 pins header selection incl. legacy fallback and refuses a foreign page size by the documented assertion.',
     level_text='Contracts on the real header code for all inputs (Verus) plus complete Kani layout harnesses over fully symbolic buffers.',
     level_note='Trusted: fnv and sha3 crates, bytes writer stand-in. Any change of field order, width, checksum input or tag constants fails a named obligation.',
-    assumptions=[A_TOOLS, A_ARITH, A_FNV, A_VIEWS, A_SEQ],
+    assumptions=[A_TOOLS, A_ARITH, A_FNV, A_VIEWS, A_SEQ, A_SERIAL],
     not_covered=['logical contents of golden files with nested buckets / multi-page values (tree layer not under contract)', 'tx_id == 0 of a fresh header (zeroed buffer, never assigned: outside the page-construction model)'],
 )
 
@@ -133,7 +137,7 @@ PROPS['C16'] = dict(
                 'between the synced data pages and the header write and its Err is propagated before the header is written (data-phase exit).',
     level_text='Arithmetic, alignment and ordering obligations proved for all configurations on the real code; no enumeration of sizes.',
     level_note='Whole-history equivalence across configurations is not decided (tree layer). mmap_populate reaches only the mmap stub. check() completeness w.r.t. well-formedness is not under contract.',
-    assumptions=[A_TOOLS, A_ARITH, A_FILE, A_VIEWS, A_PAGEMUT, A_SEQ, 'OS page sizes are multiples of 8 (Default for OpenOptions)', 'fs4 allocate / memmap2 map: the map covers every allocated byte (prelude/openfile.rs)'],
+    assumptions=[A_TOOLS, A_ARITH, A_FILE, A_VIEWS, A_PAGEMUT, A_SEQ, 'OS page sizes are multiples of 8 (Default for OpenOptions)', 'fs4 allocate / memmap2 map: the map covers every allocated byte (prelude/openfile.rs)', A_HASHSET],
     not_covered=['equality of return values and logical contents of whole histories across configurations', 'that strict mode never rejects a valid commit (needs COMPLETENESS of TxInner::check; unit check proves its soundness: Ok only if every page is accounted for exactly once)', 'the VALUE of the split threshold (float arithmetic, stub U22): Node::split is proved for ANY threshold, so no property depends on it'],
 )
 
@@ -174,7 +178,7 @@ PROPS['C07'] = dict(
                 'in particular across leaves whose entries were all deleted inside the transaction (defect E8, fixed).',
     level_text='Unbounded proofs of the per-node read/write operations, of cursor safety and of in-order completeness of the traversal; NOT a proof that the composed read API equals a model after every operation (the overlay rule and bucket-level operations are assumed / elsewhere).',
     level_note='The overlay rule (InnerBucket::page_node: a page id resolves to the transaction\'s node iff one exists, otherwise to the mapped page) is proved in unit overlay on the REAL InnerBucket struct (one field type replaced by an opaque stand-in, rule U23). The cursor unit still works against its abstract tree interface; identifying the two is by name.',
-    assumptions=[A_TOOLS, A_ARITH, A_TREEIF, A_ELEMS, 'RefCell stand-in (sequential view)', 'byte-string order is a strict total order'],
+    assumptions=[A_TOOLS, A_ARITH, A_TREEIF, A_ELEMS, 'RefCell stand-in (sequential view)', 'byte-string order is a strict total order', A_HASHSET],
     not_covered=['that the cursor unit\'s abstract node interface is InnerBucket::page_node (proved in unit overlay on the real struct) is a link by name; InnerBucket::node (materialisation with parent links through shared handles) is not under contract', 'bucket listing and point lookups through InnerBucket::get'],
 )
 
@@ -197,7 +201,7 @@ PROPS['C05'] = dict(
     level_text='Unbounded proofs of the allocator / free-list / commit-publication obligations on the real code; bounded Kani harnesses (labelled, not counted) for the raw-pointer codec.',
     level_note='The nested-bucket double free named in the property text (E10, repaired) is now a step obligation of InnerBucket::delete_bucket (a nested root queued for freeing is not already freed by this transaction). NOT decided: that Node::spill / merge_nodes (assumed interface of unit bucketcommit) free each page at most once, key order across pages, separator bounds, '
                'reachability-exactly-once, and agreement of TxInner::check (a worklist graph traversal, not under contract). L3 composition on paper; fl_nodup is an assumption.',
-    assumptions=[A_TOOLS, A_ARITH, A_TREE, A_FILE, A_PAGEMUT, A_ELEMS, A_SEQ],
+    assumptions=[A_TOOLS, A_ARITH, A_TREE, A_FILE, A_PAGEMUT, A_ELEMS, A_SEQ, A_HANDLES, A_SERIAL, A_HASHSET],
     not_covered=['duplicated or leaked pages caused by Node::spill / merge_nodes (bounded: cex/history.rs + the VERIFIED DB::check after every commit; reproductions e9, e11)', 'key order across pages and separator bounds (E11 lived here; bounded only: TxInner::check looks at each page on its own)', 'completeness of TxInner::check (that it accepts every well-formed file); its soundness is proved in unit check'],
 )
 PROPS['C01'] = dict(
@@ -214,7 +218,7 @@ PROPS['C01'] = dict(
     level_text='Proved leaf-level operations plus bounded codec; the property\'s quantifier over whole histories is NOT decided.',
     level_note='Per-call clauses are proved for InnerBucket::{get, put, delete, put_leaf, delete_bucket, bucket_getter} over an assumed tree interface (the value or error kind a reference map returns, counters, error-changes-nothing, no panic) and for the key type Bytes (ordered as byte strings). '
                'Node::split, NodeData::merge, InnerBucket::{rebalance, spill, is_dirty, page_node} are under contract since the seventh round (units split, bucketcommit, overlay); Node::spill, merge_nodes, root collapse and InnerBucket::node mutate an Rc<RefCell<Node>> graph through shared handles and are out of reach of both verifiers; the shape-dependent commit panics named in the property text (found as E9, E11, E12 and repaired) are guarded by the bounded oracles and reproductions only.',
-    assumptions=[A_TOOLS, A_ARITH, A_TREEIF, A_ELEMS, 'RefCell stand-in', 'byte-string order is a strict total order'],
+    assumptions=[A_TOOLS, A_ARITH, A_TREEIF, A_ELEMS, 'RefCell stand-in', 'byte-string order is a strict total order', A_HANDLES, A_SERIAL],
     not_covered=['deductively: every history-level clause of the statement (commit/reopen equivalence with a reference nested map across transactions); these are exercised only by the BOUNDED history oracle cex/history.rs that runs on every check', 'rebalance / spill / merge / root collapse (InnerBucket::merge_nodes, Node::spill/split): bounded oracles and reproductions e9, e11, e12 only'],
 )
 
